@@ -38,7 +38,7 @@ type Op struct {
 	Key    int    `json:"key,omitempty"`   // k0..k4
 	Scope  int    `json:"scope,omitempty"` // 0 any, 1 complete, 2 incomplete
 	Size   int    `json:"size,omitempty"`  // create: reserved bytes
-	Slot   int    `json:"slot,omitempty"`  // handle slot (create/open store their handle here; h* ops use it)
+	Slot   int    `json:"slot,omitempty"`  // h* ops: which kept handle, counted back from the newest (modulo the number kept; Create/Open keep theirs in a ring of 6)
 	Data   []byte `json:"d,omitempty"`     // hwrite/hwriteat payload, setmd value
 	N      int    `json:"n,omitempty"`     // hread/hreadat length
 	Base   int    `json:"base,omitempty"`  // position = (Base==1 ? size : 0) + Delta, clamped
@@ -81,9 +81,9 @@ var opKinds = func() []string {
 		k string
 		n int
 	}{
-		{"create", 7}, {"complete", 6}, {"open", 4}, {"delete", 1}, {"ban", 1}, {"unban", 1},
-		{"has", 1}, {"stat", 1}, {"setmd", 1}, {"getmd", 1}, {"delmd", 1}, {"listmd", 1},
-		{"hread", 3}, {"hreadat", 2}, {"hwrite", 4}, {"hwriteat", 2}, {"hseek", 1}, {"hsize", 1},
+		{"create", 7}, {"complete", 3}, {"open", 4}, {"delete", 2}, {"ban", 1}, {"unban", 1},
+		{"has", 1}, {"stat", 1}, {"setmd", 2}, {"getmd", 2}, {"delmd", 1}, {"listmd", 1},
+		{"hread", 4}, {"hreadat", 4}, {"hwrite", 5}, {"hwriteat", 3}, {"hseek", 2}, {"hsize", 1},
 	}
 	var out []string
 	for _, e := range w {
@@ -104,26 +104,26 @@ func genPos(t *rapid.T) (int, int) {
 func genCase(t *rapid.T) Case {
 	c := Case{Capacity: rapid.IntRange(16, 64).Draw(t, "capacity")}
 	keys := rapid.IntRange(2, nKeys).Draw(t, "keys") // fewer keys => more re-creation of the same key
-	n := rapid.IntRange(1, 50).Draw(t, "nops")
+	n := rapid.IntRange(4, 80).Draw(t, "nops")
 	for i := 0; i < n; i++ {
 		op := Op{K: rapid.SampledFrom(opKinds).Draw(t, "k")}
 		switch op.K {
 		case "create":
 			op.Key = rapid.IntRange(0, keys-1).Draw(t, "key")
-			op.Slot = rapid.IntRange(0, nSlots-1).Draw(t, "slot")
 			switch rapid.IntRange(0, 9).Draw(t, "sizeclass") {
 			case 0:
 				op.Size = rapid.IntRange(0, 3).Draw(t, "size")
 			case 1:
 				op.Size = rapid.IntRange(c.Capacity+1, c.Capacity+4).Draw(t, "size") // can never fit
-			case 2, 3:
-				op.Size = rapid.IntRange(c.Capacity/2, c.Capacity).Draw(t, "size")
+			case 2:
+				op.Size = rapid.IntRange(c.Capacity*2/3, c.Capacity).Draw(t, "size")
+			case 3, 4:
+				op.Size = rapid.IntRange(c.Capacity/6, c.Capacity/3).Draw(t, "size")
 			default:
-				op.Size = rapid.IntRange(c.Capacity/5, c.Capacity/2).Draw(t, "size")
+				op.Size = rapid.IntRange(c.Capacity/3, c.Capacity*2/3).Draw(t, "size") // one to three of these fit
 			}
 		case "open":
 			op.Key = rapid.IntRange(0, keys-1).Draw(t, "key")
-			op.Slot = rapid.IntRange(0, nSlots-1).Draw(t, "slot")
 			op.Scope = rapid.SampledFrom([]int{0, 0, 0, 1, 1, 2}).Draw(t, "scope")
 		case "complete":
 			op.Key = rapid.IntRange(0, keys-1).Draw(t, "key")
@@ -161,6 +161,30 @@ func genCase(t *rapid.T) Case {
 			op.Slot = rapid.IntRange(0, nSlots-1).Draw(t, "slot")
 		}
 		c.Ops = append(c.Ops, op)
+		if op.K == "create" {
+			// Usual life of a blob: written through the handle just obtained, then completed
+			// (only complete blobs can be evicted, so this makes evictions and stale handles frequent).
+			switch r := rapid.IntRange(0, 9).Draw(t, "follow"); {
+			case r < 6:
+				c.Ops = append(c.Ops,
+					Op{K: "hwrite", Slot: 0, Data: rapid.SliceOfN(rapid.ByteRange(1, 255), 1, 24).Draw(t, "data")},
+					Op{K: "complete", Key: op.Key})
+				i += 2
+			case r < 8:
+				c.Ops = append(c.Ops, Op{K: "complete", Key: op.Key})
+				i++
+			case r < 9:
+				// metadata of both kinds set while incomplete, read back after completion
+				val := rapid.SliceOfN(rapid.Byte(), 0, 6).Draw(t, "val")
+				c.Ops = append(c.Ops,
+					Op{K: "setmd", Key: op.Key, MD: 1, Data: val},
+					Op{K: "setmd", Key: op.Key, MD: 0, Data: val, Scope: scopeIncomplete},
+					Op{K: "complete", Key: op.Key},
+					Op{K: "getmd", Key: op.Key, MD: 1},
+					Op{K: "getmd", Key: op.Key, MD: 0, Scope: scopeComplete})
+				i += 5
+			}
+		}
 	}
 	return c
 }
@@ -194,6 +218,7 @@ type runner struct {
 	st       *memory.Store
 	m        *model
 	slots    [nSlots]slot
+	nextSlot int      // handles from Create/Open go to slots in ring order, so older (possibly stale) handles stay around
 	universe []string // every key ever used (for Has/Stat sweeps)
 	cause    map[*mBlob]string
 	cl       map[string]int
@@ -238,6 +263,27 @@ func position(base, delta int, size int64) int64 {
 	return p
 }
 
+func (r *runner) keep(f *memory.File, b *mBlob) {
+	r.slots[r.nextSlot%nSlots] = slot{f: f, m: &mHandle{b: b}}
+	r.nextSlot++
+}
+
+// pick resolves a generated slot number to one of the handles kept so far.
+func (r *runner) pick(n int) (slot, bool) {
+	filled := r.nextSlot
+	if filled > nSlots {
+		filled = nSlots
+	}
+	if filled == 0 {
+		return slot{}, false
+	}
+	if n < 0 {
+		n = -n
+	}
+	// 0 = the newest handle, 1 = the one before, ...
+	return r.slots[((r.nextSlot-1-n%filled)%nSlots+nSlots)%nSlots], true
+}
+
 func (r *runner) noteKey(k string) {
 	for _, u := range r.universe {
 		if u == k {
@@ -250,7 +296,7 @@ func (r *runner) noteKey(k string) {
 // create runs Create on both sides. It implements the only leniency of the oracle: a Create
 // that cannot fit even after evicting everything evictable fails with ErrNoSpace either
 // after evicting (today's behaviour, kept by the model) or without evicting anything.
-func (r *runner) create(where, key string, size uint64, slotIdx int) string {
+func (r *runner) create(where, key string, size uint64, generated bool) string {
 	r.noteKey(key)
 	lruBefore := append([]string(nil), r.m.lru...)
 	mb, ec, evicted := r.m.create(key, size)
@@ -267,14 +313,16 @@ func (r *runner) create(where, key string, size uint64, slotIdx int) string {
 		if f == nil {
 			return fmt.Sprintf("Create returned a nil handle without error (%s)", where)
 		}
-		r.slots[slotIdx] = slot{f: f, m: &mHandle{b: mb}}
+		r.keep(f, mb)
 		if mb.reserved == 0 {
 			r.cl["zero-size-reservation"]++
 		}
 	}
 	if len(evicted) > 0 {
 		if ec == eNoSpace {
-			r.cl["nospace-after-evicting"]++
+			if generated {
+				r.cl["nospace-after-evicting"]++
+			}
 			if in, _ := r.st.Has(evicted[0].key); in {
 				r.m.undoEvictions(lruBefore, evicted) // accepted alternative: nothing evicted
 				for _, v := range evicted {
@@ -282,7 +330,7 @@ func (r *runner) create(where, key string, size uint64, slotIdx int) string {
 				}
 				r.cl["nospace-left-store-untouched"]++
 			}
-		} else {
+		} else if generated {
 			r.cl["eviction"]++
 			if len(evicted) > 1 {
 				r.cl["eviction-of-several"]++
@@ -291,7 +339,7 @@ func (r *runner) create(where, key string, size uint64, slotIdx int) string {
 				r.cl["eviction-after-lru-reorder"]++
 			}
 		}
-	} else if ec == eNoSpace {
+	} else if ec == eNoSpace && generated {
 		r.cl["nospace"]++
 	}
 	return ""
@@ -301,10 +349,6 @@ func (r *runner) step(i int, op Op) string {
 	where := fmt.Sprintf("step %d %s", i, op.K)
 	key := keyName(op.Key)
 	scope := normScope(op.Scope)
-	s := op.Slot
-	if s < 0 || s >= nSlots {
-		s = 0
-	}
 	mismatch := func(call string, got, want errClass, err error) string {
 		return fmt.Sprintf("%s result differs from the model (%s: %s scope %d: store %s (%v), model %s)", call, where, key, scope, got, err, want)
 	}
@@ -314,7 +358,7 @@ func (r *runner) step(i int, op Op) string {
 		if sz < 0 {
 			sz = 0
 		}
-		return r.create(where, key, uint64(sz), s)
+		return r.create(where, key, uint64(sz), true)
 	case "open":
 		r.noteKey(key)
 		wasBack := len(r.m.lru) > 0 && r.m.lru[len(r.m.lru)-1] == key
@@ -327,7 +371,7 @@ func (r *runner) step(i int, op Op) string {
 			if f == nil {
 				return fmt.Sprintf("Open returned a nil handle without error (%s)", where)
 			}
-			r.slots[s] = slot{f: f, m: &mHandle{b: mb}}
+			r.keep(f, mb)
 			if r.m.lruHas(key) && !wasBack {
 				r.lruTouched = true
 			}
@@ -459,9 +503,9 @@ func (r *runner) step(i int, op Op) string {
 			}
 		}
 	case "hread", "hreadat", "hwrite", "hwriteat", "hseek", "hsize":
-		sl := r.slots[s]
-		if sl.f == nil {
-			r.cl["handle-op-on-empty-slot-skipped"]++
+		sl, ok := r.pick(op.Slot)
+		if !ok {
+			r.cl["handle-op-before-any-handle-skipped"]++
 			return ""
 		}
 		return r.handleOp(where, op, sl)
@@ -731,7 +775,7 @@ func runModel(c Case) pbt.Verdict {
 		free := r.m.capacity - r.m.size
 		k := fmt.Sprintf("fill%d", i)
 		where := fmt.Sprintf("drain %d", i)
-		if msg := r.create(where, k, free+1, 0); msg != "" {
+		if msg := r.create(where, k, free+1, false); msg != "" {
 			return pbt.Fail("%s", msg)
 		}
 		if msg := r.observe(where); msg != "" {
@@ -741,7 +785,7 @@ func runModel(c Case) pbt.Verdict {
 	if len(r.m.lru) == 0 {
 		// Nothing evictable is left: one more byte than free must be refused.
 		free := r.m.capacity - r.m.size
-		if msg := r.create("drain end", "fill-last", free+1, 0); msg != "" {
+		if msg := r.create("drain end", "fill-last", free+1, false); msg != "" {
 			return pbt.Fail("%s", msg)
 		}
 		if msg := r.observe("drain end"); msg != "" {
@@ -759,7 +803,7 @@ func runModel(c Case) pbt.Verdict {
 func TestProp(t *testing.T) {
 	pbt.Main(t, pbt.Spec{
 		ID: "C08",
-		Rule: "part model: histories of <=50 generated steps over 2-5 keys on a memory.Store of capacity 16-64 bytes: Create (reservations 0..capacity+4, mostly 1/5-1/2 of the capacity), MarkComplete, Open, Delete, Ban/UnbanEviction, Has, Stat, Set/Get/Delete/ListMetadata (one movable, one non-movable kind), scoped calls through Any/Complete/Incomplete views, and Read/ReadAt/Write/WriteAt/Seek/Size on up to 6 handles kept from earlier Create/Open calls; " +
+		Rule: "part model: histories of <=80 generated steps over 2-5 keys on a memory.Store of capacity 16-64 bytes: Create (reservations 0..capacity+4, mostly 1/3-2/3 of the capacity), MarkComplete, Open, Delete, Ban/UnbanEviction, Has, Stat, Set/Get/Delete/ListMetadata (one movable, one non-movable kind), scoped calls through Any/Complete/Incomplete views, and Read/ReadAt/Write/WriteAt/Seek/Size on up to 6 handles kept from earlier Create/Open calls; " +
 			"every call's result class (nil, ErrExist, ErrNotExist, ErrOutOfScope, ErrNoSpace, ErrEvicted) and value is compared with a reference model (reserved-size accounting, LRU list of complete unbanned blobs, per-generation byte content with the C12 file model); after every step List per scope, Has and Stat of every key and Size of every kept handle are compared; a handle whose generation was evicted or deleted must answer ErrEvicted / Size -1 and transfer 0 bytes, also after the key was re-created; at the end every remaining blob's bytes are compared and the LRU order is drained by forced evictions; " +
 			"part stress: 1-4 reader and 0-2 writer goroutines on handles race with a creator that forces evictions, deletes and re-creates the same keys with other bytes; invariant: every read returns exactly the bytes of the generation it first saw or ErrEvicted, and ErrEvicted is permanent; " +
 			"non-trivial (model) = a generated handle operation ran on a stale handle after its key was re-created; non-trivial (stress) = a reader saw its handle turn to ErrEvicted after reading bytes and the key was re-created meanwhile; distinct by case hash",
